@@ -202,4 +202,84 @@ theorem declaration_sound (ts : List Tok) (r : R) (rest : List Tok) (h : declara
           obtain ⟨rfl, rfl⟩ := hstep
           exact ⟨by rw [hs.1, h4]; simp [pp], by simp [acc, hfd]⟩
 
+/-! ### the translation-unit loop -/
+theorem pp_head_spec (r : R) (h : acc r = true) (X : List Tok) : (∃ n t, pp r ++ X = .sp n :: t) ∨ (∃ t, pp r ++ X = .tdef :: t) := by
+  have key : ∀ (ss : List Spec) (Y : List Tok), ss ≠ [] → (∃ n t, ss.map ppSpec ++ Y = .sp n :: t) ∨ (∃ t, ss.map ppSpec ++ Y = .tdef :: t) := by
+    intro ss Y hne
+    match ss, hne with
+    | .kw n :: ss', _ => exact .inl ⟨n, _, rfl⟩
+    | .tdef :: ss', _ => exact .inr ⟨_, rfl⟩
+  cases r with
+  | incomplete ss =>
+    simp only [acc, Bool.not_eq_true', List.isEmpty_eq_false_iff] at h
+    simpa [pp] using key ss (.semi :: X) h
+  | typedefDecl ss ids =>
+    simp only [acc, Bool.and_eq_true, Bool.not_eq_true', List.isEmpty_eq_false_iff] at h
+    simpa [pp] using key ss (ppIDs ids ++ .semi :: X) h.1.1.1
+  | varDecl ss ids =>
+    simp only [acc, Bool.and_eq_true, Bool.not_eq_true', List.isEmpty_eq_false_iff] at h
+    simpa [pp] using key ss (ppIDs ids ++ .semi :: X) h.1.1.1
+  | funDef ss d b =>
+    simp only [acc, Bool.and_eq_true, Bool.not_eq_true', List.isEmpty_eq_false_iff] at h
+    simpa [pp] using key ss (.dcl d :: .body b :: X) h.1
+
+theorem unit_pp : ∀ (rs : List R) (f : Nat), rs.all accU = true → rs.length < f → unit f (ppU rs) = some rs
+  | [], f + 1, _, _ => rfl
+  | r :: rs, f + 1, h, hf => by
+    simp only [List.all_cons, Bool.and_eq_true] at h
+    have ih := unit_pp rs f h.2 (by simp at hf; omega)
+    by_cases hr : r = .incomplete []
+    · subst hr
+      simp [ppU, pp, unit, ih]
+    · have ha : acc r = true := by
+        have := h.1
+        unfold accU at this
+        split at this
+        · exact absurd rfl hr
+        · exact this
+      have hd := declaration_pp r (ppU rs) ha
+      simp only [ppU]
+      rcases pp_head_spec r ha (ppU rs) with ⟨n, t, e⟩ | ⟨t, e⟩ <;> (rw [e] at hd ⊢; simp only [unit, hd, ih])
+  | _, 0, _, hf => by simp at hf
+
+theorem unit_sound : ∀ (f : Nat) (ts : List Tok) (rs : List R), unit f ts = some rs → ts = ppU rs ∧ rs.all accU = true ∧ rs.length < f := by
+  intro f
+  induction f with
+  | zero => intro ts rs h; simp [unit] at h
+  | succ f ih =>
+    intro ts rs h
+    match ts with
+    | [] =>
+      simp only [unit, Option.some.injEq] at h
+      subst h
+      exact ⟨rfl, rfl, by simp⟩
+    | .semi :: r =>
+      simp only [unit] at h
+      cases hu : unit f r with
+      | none => simp [hu] at h
+      | some rs' =>
+        simp only [hu, Option.some.injEq] at h
+        subst h
+        obtain ⟨h1, h2, h3⟩ := ih _ _ hu
+        exact ⟨by simp [ppU, pp, ← h1], by simp [accU, h2], by simp; omega⟩
+    | .sp n :: r | .tdef :: r | .dcl _ :: r | .eq :: r | .ini _ :: r | .comma :: r | .body _ :: r =>
+      simp only [unit] at h
+      split at h
+      · rename_i x rest hd
+        split at h
+        · rename_i rs' hu
+          simp only [Option.some.injEq] at h
+          subst h
+          obtain ⟨h1, h2⟩ := declaration_sound _ _ _ hd
+          obtain ⟨h3, h4, h5⟩ := ih _ _ hu
+          refine ⟨by rw [h1, h3]; simp [ppU], ?_, by simp; omega⟩
+          simp only [List.all_cons, Bool.and_eq_true]
+          refine ⟨?_, h4⟩
+          unfold accU
+          split
+          · rfl
+          · exact h2
+        · simp at h
+      · simp at h
+
 end PsycheModel.Declaration
